@@ -38,7 +38,7 @@ fn det_decision() -> BoxedStrategy<Decision> {
 
 fn det_strat(_: &Ctx) -> BoxedStrategy<DetCase> {
     (
-        steps_inner(3000, 20),
+        steps_inner(3000, 60),
         prop_oneof![2 => Just(0.), 3 => (-3.0..1.0f64).prop_map(|e| 10f64.powf(e))],
         prop_oneof![Just(None), Just(Some(0.)), Just(Some(0.3))],
         prop_oneof![(-3.0..-1.0f64).prop_map(|e| 10f64.powf(e)), Just(0.01)],
